@@ -1,6 +1,7 @@
 package main
 
 import (
+	"fmt"
 	"sort"
 	"strings"
 )
@@ -34,7 +35,7 @@ type node struct {
 type tree struct{ Items []*node }
 
 // rank orders: index = simplicity rank used by the minimiser (0 = simplest)
-var patRank = []string{"/x", "/", "", "/:id", "/*"}
+var patRank = []string{"/x", "/", "", "/:id", "/*", "/X"}
 var prefixRank = []string{"/api", "/", "/a-b", "/API", "/api/", "/:t"}
 
 func rankOf(list []string, s string) int {
@@ -468,4 +469,78 @@ func (t *tree) candidates() []*tree {
 		}
 	}
 	return out
+}
+
+// parseTree reads the text form produced by (*tree).String().
+func parseTree(s string) (t *tree, err error) {
+	defer func() {
+		if r := recover(); r != nil {
+			t, err = nil, fmt.Errorf("bad tree text: %v", r)
+		}
+	}()
+	pos := 0
+	skip := func() {
+		for pos < len(s) && (s[pos] == ' ' || s[pos] == ';') {
+			pos++
+		}
+	}
+	expect := func(lit string) {
+		skip()
+		if !strings.HasPrefix(s[pos:], lit) {
+			panic(fmt.Sprintf("expected %q at %d", lit, pos))
+		}
+		pos += len(lit)
+	}
+	str := func() string {
+		expect(`"`)
+		j := strings.IndexByte(s[pos:], '"')
+		v := s[pos : pos+j]
+		pos += j + 1
+		return v
+	}
+	var items func(closer byte) []*node
+	items = func(closer byte) []*node {
+		var out []*node
+		for {
+			skip()
+			if s[pos] == closer {
+				pos++
+				return out
+			}
+			switch {
+			case strings.HasPrefix(s[pos:], "group(") || strings.HasPrefix(s[pos:], "mount("):
+				n := &node{T: s[pos]}
+				pos += 6
+				n.Prefix = str()
+				expect("){")
+				n.Items = items('}')
+				out = append(out, n)
+			default:
+				n := &node{T: 'r'}
+				k := s[pos : pos+3]
+				pos += 3
+				switch k {
+				case "GET":
+					n.Kind = kGET
+				case "USE":
+					n.Kind = kUSE
+				case "ALL":
+					n.Kind = kALL
+				default:
+					panic("route kind " + k)
+				}
+				n.Pat = str()
+				skip()
+				if strings.HasPrefix(s[pos:], "next") {
+					n.Next = true
+					pos += 4
+				} else {
+					expect("reply")
+				}
+				out = append(out, n)
+			}
+		}
+	}
+	expect("[")
+	return &tree{Items: items(']')}, nil
 }
